@@ -141,6 +141,7 @@ type FuncSpec struct {
 }
 
 type Axiom struct {
+	Def  bool // definitional axiom of a ghost function (recursive definition; conservative, not proved)
 	Name string
 	E    *SExpr
 	Pkg  string
@@ -168,7 +169,7 @@ type tok struct {
 var keywords = map[string]bool{
 	"requires": true, "ensures": true, "modifies": true, "updates": true, "loop": true,
 	"func": true, "fun": true, "macro": true, "ghost": true, "axiom": true, "iface": true,
-	"trusted": true, "assume": true, "uses": true, "inv": true, "dec": true, "nonnil": true, "typeinv": true,
+	"trusted": true, "assume": true, "defaxiom": true, "uses": true, "inv": true, "dec": true, "nonnil": true, "typeinv": true,
 }
 
 func lex(src string, line0 int, file string) ([]tok, error) {
@@ -628,11 +629,11 @@ func (p *sparser) parseFile(sf *SpecFile) {
 			p.expectOp("=")
 			body := p.expr()
 			sf.Macros = append(sf.Macros, &SpecMacro{Name: name, Params: ps, Body: body})
-		case "axiom":
+		case "axiom", "defaxiom":
 			name := p.ident()
 			p.expectOp(":")
 			e := p.expr()
-			sf.Axioms = append(sf.Axioms, &Axiom{Name: name, E: e, Pkg: p.pkg, Pos: pos})
+			sf.Axioms = append(sf.Axioms, &Axiom{Name: name, E: e, Pkg: p.pkg, Pos: pos, Def: t.s == "defaxiom"})
 		case "typeinv":
 			ty := p.parseType()
 			p.expectOp("{")
